@@ -39,7 +39,7 @@ def run(repo, seed=0):
     m = re.search(r"test result: (\w+)\. (\d+) passed; (\d+) failed", q.stdout)
     info["lib_tests"] = dict(result=m.group(1), passed=int(m.group(2)), failed=int(m.group(3))) if m else dict(result="error", detail=(q.stdout + q.stderr)[-400:])
     import vreplay
-    w, checked, notes = vreplay.run_modes(dest, ["adf", "bdd", "ng", "iters"], seed, budget=150)
+    w, checked, notes = vreplay.run_modes(dest, ["adf", "bdd", "ng", "iters", "c04", "c10", "persist"], seed, budget=150)
     info["replay"] = dict(inputs_checked=checked, witness=w, bounds=vreplay.BOUNDS)
     info["ok"] = bool(m and m.group(1) == "ok" and int(m.group(3)) == 0 and w is None)
     _res[repo] = info
